@@ -204,6 +204,26 @@ def r3(ctx: Context) -> None:
         ctx.add("R3", f"{f.qualname}::broker-quota-subtracts-claimed-blocking", ok, f.loc(ad[0]), "" if ok else f"the additional quota is {src!r}")
         ok = len(ad[0].args) > 1 and ast.unparse(ad[0].args[1]) == setname
         ctx.add("R3", f"{f.qualname}::claimed-blocking-ids-shared", ok, f.loc(ad[0]), "" if ok else "the broker poll does not receive the set of already-claimed blocking ids (a duplicate message would be claimed twice)")
+    # the set of claimed blocking ids (it reduces the broker quota and makes the broker pass skip - and drop - a popped
+    # id) only ever receives ids whose PENDING claim by this runner succeeded
+    gb = bo.methods.get("get_blocking_invocations_to_run")
+    if gb is None:
+        raise AnalysisError("anchor-vanished: get_blocking_invocations_to_run")
+    gg = func_cfg(repo, gb)
+    gpm = parent_map(gb.node)
+    gdom = gg.dominators(exc_edges=True)
+    setp = gb.params[2]
+    adds = [c for c in calls_in(gb.node) if call_name(c) in ("add", "update") and isinstance(c.func, ast.Attribute) and isinstance(c.func.value, ast.Name) and c.func.value.id == setp]
+    claims = [c for c in calls_in(gb.node) if call_name(c) == "set_invocation_status" and any(isinstance(x, ast.Attribute) and x.attr == "PENDING" for a_ in c.args for x in ast.walk(a_))]
+    claim_nodes = {n.id: c for c in claims for n in cfg_node_of(gg, gb.node, c, gpm)}
+    for c in adds:
+        okc = bool(claim_nodes)
+        for n in cfg_node_of(gg, gb.node, c, gpm):
+            doms = [cid for cid in claim_nodes if cid in gdom.get(n.id, set()) and cid != n.id]
+            same_id = any(c.args and claim_nodes[cid].args and ast.unparse(claim_nodes[cid].args[0]) == ast.unparse(c.args[0]) for cid in doms)
+            okc = okc and bool(doms) and same_id
+        ctx.add("R3", f"{gb.qualname}::claimed-set-gets-only-claimed-ids", okc, gb.loc(c), "" if okc else f"`{ast.unparse(c)}` is not preceded by this runner's successful PENDING request for the same id: an id that was skipped (concurrency control, lost race) still reduces the broker quota - the awaited leaf is never fetched and a finite call tree deadlocks - and its queue message is dropped by the broker pass")
+    ctx.floor("R3", "claimed-set insertions", len(adds), 1)
     # notify before waiting
     di = repo.cls("DistributedInvocation")
     grp = repo.cls("DistributedInvocationGroup")
